@@ -17,8 +17,15 @@ pub uninterp spec fn text_of(s: &VString) -> Seq<char>;
 pub uninterp spec fn slashed(t: Seq<char>) -> Seq<char>;                 // every `\` written `/`
 pub uninterp spec fn other_text(t: Seq<char>, how: int) -> Seq<char>;    // any other rewriting of a path: nothing known about it
 pub broadcast axiom fn slashed_idempotent(t: Seq<char>) ensures #[trigger] slashed(slashed(t)) == slashed(t);
+// Path::new(t).components().filter(not CurDir).collect(): the path without `.` components -- the chain the compiler applies to the path it is given
+// (compile, unit c03_compile_entry) and to import paths (Import::path_from_parts, unit c11_path)
+pub uninterp spec fn no_curdir(t: Seq<char>) -> Seq<char>;
+// the spelling a file is known by everywhere: labels inside the bytecode, module-cache keys, the entry point
+pub open spec fn label_spelling(t: Seq<char>) -> Seq<char> { slashed(no_curdir(slashed(t))) }
 impl VString {
     #[verifier::external_body] pub fn replace_backslashes(self) -> (r: VString) ensures text_of(&r) == slashed(text_of(&self)) { unimplemented!() }
+    #[verifier::external_body] pub fn reassembled(&self) -> (r: VString) ensures text_of(&r) == other_text(text_of(self), 5) { unimplemented!() }
+    #[verifier::external_body] pub fn without_cur_dir(&self) -> (r: VString) ensures text_of(&r) == no_curdir(text_of(self)) { unimplemented!() }
     #[verifier::external_body] pub fn replace(&self, a: char, b: &str) -> (r: VString) ensures text_of(&r) == other_text(text_of(self), 1) { unimplemented!() }
     #[verifier::external_body] pub fn strip_prefix(&self, p: &str) -> (r: Option<&VString>) ensures r is Some ==> text_of(r->Some_0) == other_text(text_of(self), 2) { unimplemented!() }
     #[verifier::external_body] pub fn trim_start_matches(&self, p: &str) -> (r: &VString) ensures text_of(r) == other_text(text_of(self), 3) { unimplemented!() }
@@ -48,6 +55,11 @@ def build(repo):
     b = translate(list(f["body"]), [
         Rule("R1", "path . into ( )", "path", why="Into<String>: the text itself"),
         Rule("R9", ". replace ( '\\\\' , \"/\" )", ". replace_backslashes ( )", why="str::replace('\\\\', \"/\"): every backslash written as a slash"),
+        Rule("R9", "let path : std :: path :: PathBuf = std :: path :: Path :: new ( & path ) . components ( ) . filter ( | $c | ! matches ! ( $c , std :: path :: Component :: CurDir ) ) . collect ( ) ;", "let path = path . without_cur_dir ( ) ;",
+             why="components().filter(not CurDir).collect(): the path without `.` components (assumed std contract; the same chain the compiler uses)"),
+        Rule("R9", "let path : std :: path :: PathBuf = std :: path :: Path :: new ( & path ) . components ( ) . collect ( ) ;", "let path = path . reassembled ( ) ;",
+             why="components().collect() WITHOUT the CurDir filter: some re-assembled spelling (a leading `./` is kept) -- not the one the labels use"),
+        Rule("R1", "let path = path . to_string_lossy ( ) . replace_backslashes ( ) ;", "let path = path . replace_backslashes ( ) ;", why="PathBuf -> text"),
         Rule("R1", "let entrypoint = Rc :: new ( path ) ;", "let entrypoint = path ;", why="Rc wrapper dropped (shared text)"),
         Rule("R1", "Rc :: clone ( & entrypoint )", "entrypoint . clone ( )", why="Rc clone: the same text"),
         Rule("R1", "Rc :: downgrade ( & entrypoint )", "entrypoint . clone ( )", why="Weak of the entry path: the same text"),
@@ -62,8 +74,8 @@ def build(repo):
     gen = header(log, f"{FILE}: Program::new") + SPEC + f"""
 //@ OBL C04.execute.entry-path
 pub fn program_new(path: VString) -> (r: Result<Program, VErr>)
-    ensures r is Ok ==> ({{ let p = slashed(text_of(&path)); let prog = r->Ok_0;
-        // the entry point is the path as given (`\\` -> `/`), and the ONE file in use is the entry file, known by and registered under that same spelling
+    ensures r is Ok ==> ({{ let p = label_spelling(text_of(&path)); let prog = r->Ok_0;
+        // the entry point is the path in the spelling the LABELS use (`\\` -> `/`, `.` components dropped), and the ONE file in use is the entry file, known by and registered under that same spelling
         &&& prog.entry@ == p
         &&& prog.files@.dom() =~= set![p]
         &&& file_path(&prog.files@[p]) == p }}),
@@ -72,13 +84,11 @@ pub fn program_new(path: VString) -> (r: Result<Program, VErr>)
 {render(b, 1)}
 }}
 
-// ---- the property's side (known finding D112): `run x.ms` and `compile x.ms` + `execute ./x.mmm` are the same program.  The labels inside the bytecode carry the
-// spelling of the path at COMPILE time; for `execute` to find them whatever spelling the user picks at the second step, entry registration and labels would
-// have to go through one canonical spelling (`canon`: `.` components dropped at least) -- nothing in Program::new does that
-pub uninterp spec fn canon(t: Seq<char>) -> Seq<char>;
+// ---- D112 (fixed): `run x.ms` and `compile x.ms` + `execute ./x.mmm` are the same program: entry registration goes through the SAME spelling function as
+// the labels the compiler writes (c03_compile_entry: everything downstream of `compile` sees `no_curdir(input)`; c11_path: import paths likewise)
 //@ OBL C04.execute.spelling-independent
 pub fn program_new_canon(path: VString) -> (r: Result<Program, VErr>)
-    ensures r is Ok ==> r->Ok_0.entry@ == canon(slashed(text_of(&path))) && r->Ok_0.files@.dom() =~= set![canon(slashed(text_of(&path)))],
+    ensures r is Ok ==> r->Ok_0.entry@ == label_spelling(text_of(&path)) && r->Ok_0.files@.dom() =~= set![label_spelling(text_of(&path))],
 {{
     broadcast use slashed_idempotent;
 {render(b, 1)}
@@ -87,7 +97,7 @@ pub fn program_new_canon(path: VString) -> (r: Result<Program, VErr>)
 fn main() {{}}
 """
     return gen, [Obl("C04.execute.spelling-independent", ["C04"], fn="Program::new",
-                     desc="KF twin (D112): the entry file is registered under a canonical spelling shared with the labels the compiler writes, so that `compile x.ms` + `execute ./x.mmm` runs the program `run x.ms` runs"),
+                     desc="the entry file is registered under the spelling the compiler writes labels in (`\\` -> `/`, `.` components dropped by the same std chain), so that `compile x.ms` + `execute ./x.mmm` runs the program `run x.ms` runs (D112)"),
                  Obl("C04.execute.entry-path", ["C04", "C18", "C11"], fn="Program::new",
                      desc="Program::new: the entry file is opened, registered and made the entry point under the path as the user gave it (only `\\` -> `/`): the spelling the labels inside the bytecode use")], log
 
